@@ -30,7 +30,15 @@ def gen_case(rs, tier):
     knobs = common.draw_knobs(krng, transports=("lib",))
     knobs["sampler"] = "cycle"
     knobs["np_mode"] = "counter"
-    return {"design": ast, "knobs": knobs, "tier": tier, "sampler": krng.choice(["CMSGen", "CMSGen", "UniGen"])}
+    case = {"design": ast, "knobs": knobs, "tier": tier, "sampler": krng.choice(["CMSGen", "CMSGen", "UniGen"])}
+    hrng = W.stream(rs, "history")
+    if hrng.random() < 0.3:
+        # the block has a past: other strategies were used on the same object first, one of them possibly failing
+        # (IterateILPGen without gurobipy raises; with the fake Gurobi peer it works); the formula the samplers get
+        # afterwards must still have one model per sequence
+        ops = ["ilp-missing", "ilp-missing", "ilp-fake", "RandomGen", "IterateGen", "UniformGen", "print"]
+        case["history"] = [hrng.choice(ops) for _ in range(hrng.choice([1, 1, 2, 3]))]
+    return case
 
 
 def key(e):
@@ -46,9 +54,35 @@ def run_case(case):
         blk, b, exc = common.construct(w, ast)
         if exc is not None:
             return common.result_base(w, outcome="skip", reason="constructor-refused:" + type(exc).__name__)
+        for op in case.get("history") or []:
+            try:
+                with common.time_limit(4):
+                    w.peer_calls_cap = w.counters.get("peer.solve", 0) + 30
+                    w.draw_cap = w.rng.draws + 20000
+                    if op == "ilp-missing":
+                        _, e_ = common.synth(w, blk, "IterateILPGen", 1)
+                    elif op == "ilp-fake":
+                        from .. import gurobi
+                        gurobi.install(w)
+                        try:
+                            _, e_ = common.synth(w, blk, "IterateILPGen", 2)
+                        finally:
+                            gurobi.uninstall(w)
+                    elif op == "print":
+                        r_, e_ = common.synth(w, blk, "IterateSATGen", 1)
+                        if r_:
+                            import sweetpea as sp
+                            sp.print_experiments(blk, r_)
+                    else:
+                        _, e_ = common.synth(w, blk, op, 1)
+                w.count("history-op:" + op)
+            except (common.InnerTimeout, W.HarnessCap):
+                pass
+            except Exception:   # noqa
+                pass
         try:
             with common.time_limit(12):
-                w.peer_calls_cap = cap + 50
+                w.peer_calls_cap = w.counters.get("peer.solve", 0) + cap + 50
                 sat, exc = common.synth(w, blk, "IterateSATGen", cap + 1)
                 if exc is not None:
                     return common.result_base(w, outcome="skip", reason="exception(C08):" + type(exc).__name__)
@@ -118,4 +152,9 @@ def w_model_cache_values(w):
 
 
 def shrink_candidates(case):
+    h = case.get("history") or []
+    for i in range(len(h)):
+        c = dict(case)
+        c["history"] = h[:i] + h[i + 1:]
+        yield c
     yield from common.shrink_case(case)
